@@ -77,7 +77,8 @@ ParseChain(b, first) == ParseFrom(b, 1, first, <<>>)
 A8 == Rep(65, 8)   B8 == Rep(66, 8)   Z8 == Rep(0, 8)
 T(type, id, kl) == [type |-> type, id |-> id, keylen |-> kl]
 TrSeqs == { <<T(1, 12, 256), T(3, 12, 0), T(2, 5, 0), T(4, 19, 0)>>, <<T(1, 12, 128), T(1, 12, 256), T(3, 14, 0)>>,
-            <<T(3, 2, 0), T(5, 0, 0)>>, <<T(4, 21, 0)>> }
+            <<T(3, 2, 0), T(5, 0, 0)>>, <<T(4, 21, 0)>>,
+            <<T(1, 12, 256), T(3, 12, 0), T(1, 12, 256)>> }        \* a transform listed twice: the "more" octet goes by position, not by value
 Spis == { <<>>, <<1, 2, 3, 4>>, <<9, 8, 7, 6, 5, 4, 3, 2>> }
 Props == { [num |-> n, proto |-> pr, spi |-> s, transforms |-> ts] : n \in {1}, pr \in {1, 2, 3}, s \in Spis, ts \in TrSeqs }
 P(t, c, rest) == [t |-> t, critical |-> c] @@ rest
@@ -90,6 +91,10 @@ N16 == [i \in 1..16 |-> i]   N32 == [i \in 1..32 |-> 200 + (i % 50)]
 Payloads ==
   { P(33, FALSE, [proposals |-> <<p>>]) : p \in Props } \cup
   { P(33, FALSE, [proposals |-> <<p, q>>]) : p \in {x \in Props : x.proto = 3 /\ x.spi = <<1, 2, 3, 4>>}, q \in {x \in Props : x.proto = 2 /\ x.spi = <<1, 2, 3, 4>> /\ Len(x.transforms) = 2} } \cup
+  \* the same suite offered under two proposal numbers / SPIs, and once more after a different one (position decides "last", not content)
+  { P(33, FALSE, [proposals |-> <<p, [p EXCEPT !.num = 2, !.spi = <<5, 6, 7, 8>>]>>]) : p \in {x \in Props : x.proto = 3 /\ x.spi = <<1, 2, 3, 4>>} } \cup
+  { P(33, FALSE, [proposals |-> <<p, [q EXCEPT !.num = 2], [p EXCEPT !.num = 3]>>]) :
+      p \in {x \in Props : x.proto = 1 /\ x.spi = <<>> /\ Len(x.transforms) = 4}, q \in {x \in Props : x.proto = 1 /\ x.spi = <<>> /\ Len(x.transforms) = 3} } \cup
   { P(34, FALSE, [group |-> 19, data |-> N32]), P(34, TRUE, [group |-> 14, data |-> N16]),
     P(35, FALSE, [id_type |-> 1, data |-> <<192, 168, 0, 1>>]), P(36, FALSE, [id_type |-> 2, data |-> <<98, 111, 98>>]),
     P(35, FALSE, [id_type |-> 3, data |-> <<97, 64, 98>>]), P(36, FALSE, [id_type |-> 5, data |-> V6a]), P(35, TRUE, [id_type |-> 11, data |-> <<1, 255>>]),
